@@ -172,7 +172,16 @@ pub fn run(ctx: &mut Ctx, _replay: Option<&[String]>) {
                 };
                 let f32call = if mixed { rng.chance(1, 2) } else { f32mode };
                 if f32call { sent = sent.iter().map(|&x| (x as f32) as f64).collect(); }
-                (sent, *rng.pick(&[0u32, 1, 2, 5, 20]), f32call)
+                let mut limit = *rng.pick(&[0u32, 1, 2, 5, 20]);
+                // one call in six gets a limit that does not fit in 31 (16, 8) bits -- only for a frame that a fresh Rust decoder decodes within
+                // 20 iterations (otherwise the reference itself would iterate for hours): the result must then be the same as under limit 20
+                if rng.chance(1, 6) {
+                    let dep = match &pattern { Some(p) => Puncturer::new(p).depuncture(&sent).unwrap(), None => sent.clone() };
+                    let (imp3, h3) = (*imp, h.clone());
+                    let decodes = crate::guarded(move || imp3.build_decoder(h3).decode(&dep, 20).is_ok()).unwrap_or(false);
+                    if decodes { limit = *rng.pick(&[u32::MAX, 1u32 << 31, (1u32 << 31) + 7, 65536, 65541, 256, 1 << 20]); }
+                }
+                (sent, limit, f32call)
             }).collect();
             let (calls2, pattern2, h2, imp2) = (calls.clone(), pattern.clone(), h.clone(), *imp);
             let res = crate::c06::with_time_limit(300, move || {
@@ -230,6 +239,38 @@ pub fn run(ctx: &mut Ctx, _replay: Option<&[String]>) {
             let calls_s: Vec<String> = calls.iter().take(done).map(|(s, l, _)| fmt_call(*l as usize, s)).collect();
             ctx.emit(&format!("{} {}", head, calls_s.join(" ")), &res, ncalls >= 2, &tags);
         }
+    }
+    // ---------------------------------------------------------------- decode through the C API with a code of more than 2^16 columns (float names: the
+    // list-based model is not run on them; judged as C result = Rust result), output lengths above and below n mod 65536
+    for name in ["Phif64", "HLTanhf32", "Minstarapproxf64", "HLAminstarf64"].iter().take(ctx.scale(2, 4)) {
+        let Some(imp) = impls.iter().find(|i| i.to_string() == *name).copied() else { continue };
+        let n = 65536 + rng.range(2, 60);
+        let mut h = SparseMatrix::new(3, n);
+        let hi = [65536, 65536 + rng.range(1, n - 65536 - 1), n - 1];
+        let lo = [1usize, rng.range(2, 300), 0];
+        for r in 0..3 { h.insert(r, lo[r]); h.insert(r, hi[r]); }
+        let mut llrs = vec![2.5f64; n];
+        llrs[hi[rng.below(3)]] = -1.5;
+        let out_len = *rng.pick(&[n, 300, n - 3, 1]);
+        let limit = *rng.pick(&[1u32, 3]);
+        let (Some(a), Some(nm), Some(ps)) = (cs(&h.alist()), cs(name), cs("")) else { continue };
+        let (h2, llrs2) = (h.clone(), llrs.clone());
+        let res = crate::c06::with_time_limit(300, move || {
+            let handle = unsafe { ldpc_toolbox_decoder_ctor_alist_string(a.as_ptr(), nm.as_ptr(), ps.as_ptr()) };
+            if handle.is_null() { return "NULL | ok".to_string(); }
+            let rr = imp.build_decoder(SparseMatrix::from_alist(&h2.alist()).unwrap()).decode(&llrs2, limit as usize);
+            let mut out = vec![7u8; out_len];
+            let ret = unsafe { ldpc_toolbox_decoder_decode_f64(handle, out.as_mut_ptr(), out_len, llrs2.as_ptr(), llrs2.len(), limit) };
+            unsafe { ldpc_toolbox_decoder_dtor(handle) };
+            let (rret, word) = match rr { Ok(o) => (o.iterations as i64, o.codeword), Err(o) => (-1, o.codeword) };
+            // (only the positions around the ones of H and the ends are printed: the words are 65 000 bits long)
+            let pick = |w: &[u8]| -> String { let mut idx: Vec<usize> = vec![0, 1, 2, 299, 65535, 65536, 65537, out_len.saturating_sub(1)]; idx.retain(|&i| i < w.len());
+                format!("{}/{}", w.len(), idx.iter().map(|&i| w[i].to_string()).collect::<String>()) };
+            let same = out.len() == word.len().min(out_len) && out.iter().zip(word.iter()).all(|(a, b)| a == b);
+            format!("{}:{}:{} | {}:{}:{}", ret, pick(&out), if same { "=" } else { "DIFFERENT-WORD" }, rret, pick(&word[..out_len.min(word.len())]), "=")
+        });
+        let res = if res == "abort" || res == "timeout" { format!("process-{}-inside-the-C-call | ok", res) } else { res };
+        ctx.emit(&format!("c19 dec f64 {} {} - {} {}", name, sm(&h), out_len, fmt_call(limit as usize, &llrs[..0])), &res, true, &["decode-more-than-65536-columns"]);
     }
     // ---------------------------------------------------------------- encode
     for _ in 0..ctx.scale(300, 40000) {
